@@ -131,7 +131,7 @@ func (sess *Session) writeGrpcLoop() {
 			return
 
 		case topic := <-sess.detach:
-			sess.delSub(topic)
+			sess.delStaleSub(topic)
 		}
 	}
 }
